@@ -53,7 +53,13 @@ func oracleC13(r *Result) {
 					bad("success-for-unregistered-issuer", "", "Success only when the Issuer names a registered service provider", fmt.Sprintf("issuer elements: %d", len(is)))
 				}
 				if ii := v.Root.Attr("IssueInstant"); ii != "" {
-					if tt, ok := parseXSDateTime(ii); !ok {
+					tt, ok := parseXSDateTime(ii)
+					if !ok {
+						if tt, ok = parseTimeCommaLenient(ii); ok {
+							bad("success-for-unparseable-issueinstant", ":comma-as-decimal-separator", "a request is not issued in the future", ii)
+						}
+					}
+					if !ok {
 						bad("success-for-unparseable-issueinstant", "", "a request is not issued in the future", ii)
 					} else if tt.After(t.TReturn) {
 						bad("success-for-request-issued-in-the-future", "", "IssueInstant <= now", fmt.Sprintf("IssueInstant %s, request interval [%s, %s]", ii, t.TInvoke.UTC().Format(tsFmt), t.TReturn.UTC().Format(tsFmt)))
@@ -62,7 +68,13 @@ func oracleC13(r *Result) {
 					}
 				}
 				if na := v.Root.Attr("NotOnOrAfter"); na != "" {
-					if tt, ok := parseXSDateTime(na); !ok {
+					tt, ok := parseXSDateTime(na)
+					if !ok {
+						if tt, ok = parseTimeCommaLenient(na); ok {
+							bad("success-for-unparseable-notonorafter", ":comma-as-decimal-separator", "a request has not passed its NotOnOrAfter", na)
+						}
+					}
+					if !ok {
 						bad("success-for-unparseable-notonorafter", "", "a request has not passed its NotOnOrAfter", na)
 					} else if !tt.After(t.TInvoke) {
 						bad("success-after-notonorafter", "", "now < NotOnOrAfter", fmt.Sprintf("NotOnOrAfter %s, request interval [%s, %s]", na, t.TInvoke.UTC().Format(tsFmt), t.TReturn.UTC().Format(tsFmt)))
@@ -224,6 +236,10 @@ func oracleC12(r *Result) {
 				ok = verr == nil
 			}
 			if !ok {
+				if len(q.Childs(NSDS, "Signature")) > 1 {
+					bad("signature-does-not-verify:several-signature-elements", "any signature value the query carries verifies under the registered certificate", fmt.Sprintf("tamper=%v", t.Msg.Tamper))
+					continue
+				}
 				bad("signature-does-not-verify", "any signature value the query carries verifies under the registered certificate", fmt.Sprintf("tamper=%v", t.Msg.Tamper))
 			} else {
 				w.probe("attrq_answered_with_valid_signature")
